@@ -312,10 +312,18 @@ fn build_forward_request(req: &ParsedRequest) -> Result<Vec<u8>> {
     );
     new_request.extend_from_slice(request_line.as_bytes());
 
-    let host_header_value = if req.port == 80 || req.port == 443 {
-        req.host.clone()
+    // The request is forwarded as plain HTTP, whose default port is 80: any other
+    // port (443 included) must stay in the Host value, and an IPv6 literal needs
+    // its brackets back or "addr:port" would read as a different address.
+    let host_for_header = if req.host.contains(':') {
+        format!("[{}]", req.host)
     } else {
-        format!("{}:{}", req.host, req.port)
+        req.host.clone()
+    };
+    let host_header_value = if req.port == 80 {
+        host_for_header
+    } else {
+        format!("{}:{}", host_for_header, req.port)
     };
 
     let mut host_written = false;
